@@ -680,11 +680,20 @@ def sim_gates():
             seen.add("write")
             simmp.S.sync(("tile_write", tuple(pos)), lambda: {"ok": lambda: None})
         return o_write(self, pos, *a, **k)
+    o_makedirs = os.makedirs
+
+    def makedirs(name, *a, **k):
+        # creating a directory is a step other workers can interleave with (check-then-create sequences around it)
+        if in_sim():
+            simmp.S.sync(("mkdir", os.path.basename(str(name))), lambda: {"ok": lambda: None})
+        return o_makedirs(name, *a, **k)
     filelock.SoftFileLock._acquire = _acquire
     PyramidIO.read_image, PyramidIO.write_image = read_image, write_image
+    os.makedirs = makedirs
     try:
         yield seen
     finally:
+        os.makedirs = o_makedirs
         filelock.SoftFileLock._acquire = o_acq
         PyramidIO.read_image, PyramidIO.write_image = o_read, o_write
 
